@@ -432,6 +432,15 @@ func FuzzVerifRecvData(f *testing.F) {
 				t.Fatalf("VERIF-VIOLATION property=C11 sub=fuzz file=- sig=-: %v", err)
 			}
 		} else if !aead {
+			// Without authentication garbage legitimately opens streams: take them off the accept queue as an
+			// application would, or the 1025th would park this goroutine for good (back pressure, not a defect)
+			for drained := false; !drained; {
+				select {
+				case <-s.sesh.acceptCh:
+				default:
+					drained = true
+				}
+			}
 			_ = s.sesh.recvDataFromRemote(append([]byte(nil), variant...)) // must not panic
 		}
 	})
